@@ -291,9 +291,23 @@ class Gen:
             # the spellings are warm, then the edit goes through one handle and the probes through the other
             yield {"k": "alias_handle", "node": ni, "via": r.choice(["copy", "unitcopy"])}
         ed = self.g_edit(w, ni, sym)
+        dimflip = None
+        ent = w.nodes[ni % len(w.nodes)].model.get(sym)
+        if ent is not None and r.random() < 0.15:
+            # the symbol keeps its number but changes dimension (modify by a quantity whose SI value equals the
+            # current scale): a quantity made before and one made after then share spelling AND scale
+            yield {"k": "quantity", "node": ni, "h": 0, "v": r.choice(VALUES), "s": sym, "route": "ctor", "store": True}
+            dimflip = w.last_stored
+            ed = {"k": "modify_q", "node": ni, "h": 0, "sym": sym, "v": float(ent[0]), "s": r.choice(["s", "kg", "K", "m", "rad"])}
         if alias:
             ed["h"] = r.choice([0, 0, 1])
         yield ed
+        if dimflip is not None:
+            yield {"k": "quantity", "node": ni, "h": 0, "v": r.choice(VALUES), "s": sym, "route": "ctor", "store": True}
+            newq = w.last_stored
+            for f in r.sample(["add", "eq", "sub", "lt", "max", "mul"], 3):
+                yield {"k": "binop", "f": f, "x": dimflip, "y": newq, "store": False}
+            yield {"k": "unitop", "f": r.choice(["eq", "same_dims", "conv"]), "x": dimflip, "y": newq, "p": 2, "store": False}
         if r.random() < 0.25:
             yield self.g_edit(w, ni, sym)
         for s in spellings + [self.spell(sym)]:
